@@ -26,7 +26,7 @@ RULE = (
 )
 ASSUMPTIONS = ["Subscribe/SubscribeAck entries use counter 0..15 and a 16-bit eventgroup id (the decoder rejects other reserved bits by design)",
                "configuration keys non-empty ASCII without '='"]
-FLOORS = {"quick": {"receive_path": 500, "receive_path_with_leading_sd_endpoint_option": 500, "runs_reaching_beyond_option_256": 60, "messages": 12000, "roundtrips_compared": 9000, "independent_decodes": 9000, "must_fail_cases": 400,
+FLOORS = {"quick": {"messages_resolved_entry_by_entry": 9000, "receive_path": 500, "receive_path_with_leading_sd_endpoint_option": 500, "runs_reaching_beyond_option_256": 60, "messages": 12000, "roundtrips_compared": 9000, "independent_decodes": 9000, "must_fail_cases": 400,
                     "must_fail_raised": 400, "shared_runs_observed": 3000, "send_sd_path": 300, "runs_of_15": 50,
                     "arrays_over_200_options": 8,
                     "mesh_scenarios": 100, "mesh_wire_datagrams": 4800}}
@@ -210,6 +210,11 @@ def check_message(H, msg, ctx, replay):
         parsed, rest = H.SOMEIPSDHeader.parse(built)
         res = parsed.resolve_options()
         ctx.count("roundtrips_compared")
+        # resolution entry by entry (the public per-entry method a dissector uses) gives what the header-level call gives
+        per = tuple(e.resolve_options(parsed.options) for e in parsed.entries)
+        ctx.count("messages_resolved_entry_by_entry")
+        if per != tuple(res.entries):
+            problems.append("entry-by-entry resolution differs from the header-level resolution")
         if rest:
             problems.append("bytes left over after decoding")
         if (res.flag_reboot, res.flag_unicast, res.flags_unknown) != (fl["reboot"], fl["unicast"], fl["unknown"]):
